@@ -38,7 +38,7 @@ func (o c12Op) String() string {
 	switch o.kind {
 	case "parse-url":
 		return fmt.Sprintf("parse-url(%q)", o.raw)
-	case "unmarshal-document", "unmarshal-partial", "roundtrip-document", "new-request":
+	case "unmarshal-document", "unmarshal-partial", "roundtrip-document", "new-request", "unmarshal-collection":
 		return fmt.Sprintf("%s(%s)", o.kind, o.payload)
 	case "new-set-get", "marshal", "marshal-softcol":
 		return fmt.Sprintf("%s(%s %s)", o.kind, o.typ, gen.ShowVals(o.vals))
@@ -47,7 +47,7 @@ func (o c12Op) String() string {
 	return fmt.Sprintf("%s(%q)", o.kind, o.typ)
 }
 
-var c12Kinds = []string{"new-request", "parse-url", "unmarshal-document", "unmarshal-partial", "new-set-get", "new-direct", "marshal", "marshal-softcol", "roundtrip-document", "has-type", "get-type", "check", "rels"}
+var c12Kinds = []string{"unmarshal-collection", "new-request", "parse-url", "unmarshal-document", "unmarshal-partial", "new-set-get", "new-direct", "marshal", "marshal-softcol", "roundtrip-document", "has-type", "get-type", "check", "rels"}
 
 func drawOp(t *rapid.T, ss *gen.SchemaSpec) c12Op {
 	kind := rapid.SampledFrom(c12Kinds).Draw(t, "op")
@@ -76,6 +76,21 @@ func drawOp(t *rapid.T, ss *gen.SchemaSpec) c12Op {
 		pc := gen.ResourcePayload(t, ts, gen.PayloadOpts{Canonical: true})
 		op.payload = []byte(pc.Text)
 		op.resMeta = pc.ResMeta
+	case "unmarshal-collection":
+		// A document whose data is a list of resources of the type; one
+		// list in four has a member that is refused (an unknown field).
+		members := []string{}
+		for i, n := 0, rapid.IntRange(0, 4).Draw(t, "nmembers"); i < n; i++ {
+			members = append(members, gen.ResourcePayload(t, ts, gen.PayloadOpts{Canonical: true, AllFieldsOften: true}).Text)
+		}
+
+		if rapid.IntRange(0, 3).Draw(t, "badmember") == 0 {
+			at := rapid.IntRange(0, len(members)).Draw(t, "badmember-at")
+			bad := `{"type":` + gen.QuoteJSON(ts.Name) + `,"id":"bad","attributes":{"zz-no-such-field":1}}`
+			members = append(members[:at:at], append([]string{bad}, members[at:]...)...)
+		}
+
+		op.payload = []byte(`{"data":[` + strings.Join(members, ",") + `]}`)
 	case "new-set-get", "marshal", "marshal-softcol":
 		op.vals = gen.FillResource(t, gen.NewResource(ts), ts, "v")
 	case "has-type", "get-type":
@@ -120,6 +135,23 @@ func runOp(schema *jsonapi.Schema, ss *gen.SchemaSpec, op c12Op, held *[]c12Held
 		}
 
 		return req.URL.String() + " " + hold(res, "doc "+c12Digest(res))
+	case "unmarshal-collection":
+		doc, err := jsonapi.UnmarshalDocument(op.payload, schema)
+		if err != nil {
+			return "error"
+		}
+
+		col, _ := doc.Data.(jsonapi.Collection)
+		if col == nil {
+			return "no collection"
+		}
+
+		digest := fmt.Sprintf("collection of %d:", col.Len())
+		for i := 0; i < col.Len(); i++ {
+			digest += " " + hold(col.At(i), "doc "+c12Digest(col.At(i)))
+		}
+
+		return digest
 	case "unmarshal-document":
 		doc, err := jsonapi.UnmarshalDocument(op.payload, schema)
 		if err != nil {
